@@ -118,6 +118,7 @@ ThreadPool::ThreadPool(size_t n, size_t poolLoadMultiplier)
 
   // All threads start as "not working" — they haven't entered their work loops yet.
   numNotWorking_.store(static_cast<int32_t>(adjustedN), std::memory_order_relaxed);
+  DISPENSO_VERIF_HOOK("pool.ctor", this, adjustedN, 0);
 
   for (size_t i = 0; i < adjustedN; ++i) {
     threads_.emplace_back();
@@ -215,6 +216,7 @@ void ThreadPool::threadLoopImpl(PerThreadData& data, int32_t ringIndex) {
       ++localWorkDone;
       if (localWorkDone >= kWorkBatchSize) {
         workRemaining_.fetch_sub(localWorkDone, std::memory_order_relaxed);
+        DISPENSO_VERIF_HOOK("pool.count", this, -localWorkDone, 0);
         localWorkDone = 0;
       }
       failCount = 0;
@@ -223,6 +225,7 @@ void ThreadPool::threadLoopImpl(PerThreadData& data, int32_t ringIndex) {
     if (localWorkDone > 0) {
       markWorkDone(isWorking);
       workRemaining_.fetch_sub(localWorkDone, std::memory_order_relaxed);
+      DISPENSO_VERIF_HOOK("pool.count", this, -localWorkDone, 0);
       failCount = 0;
       continue;
     }
@@ -238,6 +241,7 @@ void ThreadPool::threadLoopImpl(PerThreadData& data, int32_t ringIndex) {
     {
       OnceFunction stealTask;
       if (myStealRing.try_pop(stealTask)) {
+        DISPENSO_VERIF_HOOK("pool.take.steal", this, 0, myStealIdx);
         markWorkDone(isWorking);
         executeNext(std::move(stealTask));
         failCount = 0;
@@ -300,6 +304,7 @@ void ThreadPool::resizeLocked(ssize_t sn) {
   if (n == threads_.size()) {
     return;
   }
+  DISPENSO_VERIF_HOOK("pool.resize.begin", this, n, 0);
 
   // Stop ALL threads, drain work, rebuild wake state, restart.
   // Resize is a rare operation; correctness and simplicity take priority
@@ -330,12 +335,14 @@ void ThreadPool::resizeLocked(ssize_t sn) {
   for (size_t i = 0; i < rings_.size(); ++i) {
     OnceFunction task;
     while (rings_[i].try_pop(task)) {
+      DISPENSO_VERIF_HOOK("pool.take.ring", this, 2, i);
       task();
     }
   }
   for (size_t i = 0; i < stealRings_.size(); ++i) {
     OnceFunction task;
     while (stealRings_[i].try_pop(task)) {
+      DISPENSO_VERIF_HOOK("pool.take.steal", this, 2, i);
       task();
     }
   }
@@ -348,6 +355,7 @@ void ThreadPool::resizeLocked(ssize_t sn) {
       rings_.grow_by(n - rings_.size());
     }
     numRings_.store(n, std::memory_order_release);
+    DISPENSO_VERIF_HOOK("pool.rings", this, n, 0);
 
     size_t newNumSteal = (n + stealRingSharing_ - 1) / stealRingSharing_;
     if (newNumSteal > stealRings_.size()) {
@@ -394,6 +402,7 @@ void ThreadPool::resizeLocked(ssize_t sn) {
     while (tryExecuteNext()) {
     }
   }
+  DISPENSO_VERIF_HOOK("pool.resize.end", this, n, 0);
 }
 
 ThreadPool::~ThreadPool() {
@@ -405,6 +414,7 @@ ThreadPool::~ThreadPool() {
   // useful diagnostic to learn that the mutex is already locked when we reach this point.
   std::unique_lock<std::mutex> lk(threadsMutex_, std::try_to_lock);
   assert(lk.owns_lock());
+  DISPENSO_VERIF_HOOK("pool.dtor.begin", this, 0, 0);
 
   // Mark all threads as stopped first, then wake them all at once.
   // One-at-a-time stop+wake is fragile: a wake() can reach an already-awake
@@ -436,15 +446,18 @@ ThreadPool::~ThreadPool() {
   for (size_t i = 0; i < rings_.size(); ++i) {
     OnceFunction task;
     while (rings_[i].try_pop(task)) {
+      DISPENSO_VERIF_HOOK("pool.take.ring", this, 2, i);
       task();
     }
   }
   for (size_t i = 0; i < stealRings_.size(); ++i) {
     OnceFunction task;
     while (stealRings_[i].try_pop(task)) {
+      DISPENSO_VERIF_HOOK("pool.take.steal", this, 2, i);
       task();
     }
   }
+  DISPENSO_VERIF_HOOK("pool.dtor.end", this, 0, 0);
   // wakeState_ graveyard freed by RAII (vector destructor)
 }
 ThreadPool& globalThreadPool() {
